@@ -241,6 +241,58 @@ def sys (mem0 : Mem) : Machine (AxlM × AxlOracle) Sys (AxlS × AxlM × AxlS) wh
 
 end DownR
 
+/-! ### AXI-Lite down-converter paths with an ARBITRARY narrow partner: observers on both ports, response log -/
+
+/-- First non-OKAY response of a list (OKAY if there is none). -/
+def firstErr (l : List Nat) : Nat := (l.find? (fun r => r != respOkay)).getD respOkay
+
+namespace DownW
+
+/-- `log`: the narrow B responses taken since the current wide write started. -/
+structure OSys where
+  br  : DownWState
+  g   : AxlGhost Unit   -- wide (master) port
+  h   : AxlGhost Unit   -- narrow (slave) port
+  log : List Nat
+
+variable (c : DownCfg)
+
+def osys : Machine (AxlM × AxlS) OSys (AxlS × AxlM) where
+  init := { br := init, g := AxlGhost.init (), h := AxlGhost.init (), log := [] }
+  out s i := (toMaster c s.br i.1 i.2, toSlave c s.br i.1 i.2)
+  next s i :=
+    let q := toSlave c s.br i.1 i.2
+    let br' := next c s.br i.1 i.2
+    { br := br', g := s.g.next (fun _ _ _ _ => ()) i.1 (toMaster c s.br i.1 i.2)
+      h := s.h.next (fun _ _ _ _ => ()) q i.2
+      log := if br'.st == .idle then [] else if i.2.bvalid && q.bready then s.log ++ [i.2.bresp] else s.log }
+
+end DownW
+
+namespace DownR
+
+/-- `log`: the narrow R responses seen since the current wide read started (the last one is counted when the
+    converter moves on to answering the master). -/
+structure OSys where
+  br  : DownRState
+  g   : AxlGhost Unit
+  h   : AxlGhost Unit
+  log : List Nat
+
+variable (c : DownCfg)
+
+def osys : Machine (AxlM × AxlS) OSys (AxlS × AxlM) where
+  init := { br := init, g := AxlGhost.init (), h := AxlGhost.init (), log := [] }
+  out s i := (toMaster c s.br i.1 i.2, toSlave c s.br i.1 i.2)
+  next s i :=
+    let br' := next c s.br i.1 i.2
+    { br := br', g := s.g.next (fun _ _ _ _ => ()) i.1 (toMaster c s.br i.1 i.2)
+      h := s.h.next (fun _ _ _ _ => ()) (toSlave c s.br i.1 i.2) i.2
+      log := if br'.st == .idle then []
+             else if s.br.st == .respSlave && i.2.rvalid then s.log ++ [i.2.rresp] else s.log }
+
+end DownR
+
 /-! ### AXI-Lite up-converter with an arbitrary wide partner and the observer of its master port -/
 namespace Up
 
@@ -355,6 +407,39 @@ def singleOutstanding (s : RSys) (i : AxiM × AxlS) : Prop :=
 
 instance (s : RSys) (i : AxiM × AxlS) : Decidable (singleOutstanding s i) := by
   unfold singleOutstanding; infer_instance
+
+/-! Read and write bursts together: beat counters for all four AXI-Lite request/data streams. -/
+
+/-- `awCnt` / `wCnt`: AXI-Lite AWs accepted / W beats handed over since the bridge last left IDLE. -/
+structure BSys where
+  br    : X2LState
+  arCnt : Nat
+  rCnt  : Nat
+  awCnt : Nat
+  wCnt  : Nat
+
+def bsys : Machine (AxiM × AxlS) BSys (AxiS × AxlM) where
+  init := { br := init, arCnt := 0, rCnt := 0, awCnt := 0, wCnt := 0 }
+  out s i := (toMaster aw s.br i.1 i.2, toSlave aw s.br i.1)
+  next s i :=
+    let q := toSlave aw s.br i.1
+    let o := toMaster aw s.br i.1 i.2
+    let idle := s.br.st == .idle
+    { br := next aw s.br i.1 i.2
+      arCnt := if idle then 0 else s.arCnt + (if q.arvalid && i.2.arready then 1 else 0)
+      rCnt := if idle then 0 else s.rCnt + (if o.rvalid && i.1.rready then 1 else 0)
+      awCnt := if idle then 0 else s.awCnt + (if q.awvalid && i.2.awready then 1 else 0)
+      wCnt := if idle then 0 else s.wCnt + (if q.wvalid && i.2.wready then 1 else 0) }
+
+/-- Environment for which the bridge is proved (everything outside is one of the open findings):
+    the AXI-Lite partner answers reads one at a time (R only for an accepted AR, next AR only after the previous R
+    was delivered) and takes a W beat only after the AW it belongs to (`wCnt < awCnt`);
+    the AXI master sets `w.last` exactly on beat `len + 1` of the burst in progress; burst lengths fit 8 bits. -/
+def wellBehaved (s : BSys) (i : AxiM × AxlS) : Prop :=
+  (i.2.rvalid = true → s.rCnt < s.arCnt) ∧ (i.2.arready = true → s.arCnt = s.rCnt) ∧
+  (i.2.wready = true → s.wCnt < s.awCnt) ∧
+  (s.br.st = .write → i.1.wvalid = true → (i.1.wlast = true ↔ s.wCnt = s.br.bufReq.len)) ∧
+  i.1.ar.len < 256 ∧ i.1.aw.len < 256
 
 end Axi2Axl
 end Litex.Bridge
